@@ -372,4 +372,179 @@ theorem definedE_of_wellDef : ∀ e : Exp (Ext K), wellDef e = true → DefinedE
     | _ => simp [wellDef, isArithOp] at h
   | _ => intro h; simp [wellDef] at h
 
+
+/-! ### a model that really introduces an auxiliary: non-vacuity of `c01_partial` / `c02_partial` -/
+
+/-- `min y  s.t.  c: abs{x} ≤ y`, `x ∈ [-1, 2]`, `y` free. -/
+def exAbs : Model (Ext K) :=
+  { optType := .min, objective := .var "y",
+    constraints := [{ name := "c", lhs := .abs (.var "x"), cmp := .le, rhs := .var "y", isAssert := false }],
+    domain := [{ name := "x", ty := .real (.fin (-1)) (.fin 2), usage := 1 },
+               { name := "y", ty := .real .ninf .pinf, usage := 1 }] }
+
+def exAbsBounds : BoundsMap (Ext K) := [("x", ⟨.fin (-1), .fin 2⟩)]
+
+def exAbsInner : Exp (Ext K) := .bin .add (.num (.fin 0)) (.bin .mul (.num (.fin 1)) (.var "x"))
+
+theorem exAbs_norm_abs : normalizeExp (.abs (.var "x") : Exp (Ext K)) = some (.abs (.var "x")) := by
+  simp [normalizeExp, flattenFuel, flattenF, simplify]
+theorem exAbs_norm_var (n : String) : normalizeExp (.var n : Exp (Ext K)) = some (.var n) := by
+  simp [normalizeExp, flattenFuel, flattenF, simplify]
+theorem exAbs_norm_sub1 : normalizeExp (.bin .sub (.abs (.var "x")) (.var "y") : Exp (Ext K))
+    = some (.bin .sub (.abs (.var "x")) (.var "y")) := by
+  simp [normalizeExp, flattenFuel, flattenF, simplify, subCore]
+theorem exAbs_norm_inner : normalizeExp (exAbsInner : Exp (Ext K)) = some (.var "x") := by
+  simp [exAbsInner, normalizeExp, flattenFuel, flattenF, simplify, addCore, mulCore, isNumEq, ext_eq_fin]
+theorem exAbs_norm_neg_inner : normalizeExp (.un .neg exAbsInner : Exp (Ext K)) = some (.un .neg (.var "x")) := by
+  simp [exAbsInner, normalizeExp, flattenFuel, flattenF, simplify, addCore, mulCore, isNumEq, ext_eq_fin]
+theorem exAbs_norm_sub2 (v : String) : normalizeExp (.bin .sub (.var v) (.un .neg (.var "x")) : Exp (Ext K))
+    = some (.bin .sub (.var v) (.un .neg (.var "x"))) := by
+  simp [normalizeExp, flattenFuel, flattenF, simplify, subCore]
+theorem exAbs_norm_sub3 (v : String) : normalizeExp (.bin .sub (.var v) (.var "x") : Exp (Ext K))
+    = some (.bin .sub (.var v) (.var "x")) := by
+  simp [normalizeExp, flattenFuel, flattenF, simplify, subCore]
+
+/-- the abs gadget on `abs{x}` with `x ∈ [-1, 2]`, requirement `lower`. -/
+theorem exAbs_lin_abs (s : St (Ext K)) (hb : lookupB s.bounds "x" = some ⟨.fin (-1), .fin 2⟩)
+    (hf : toString "$abs_" ++ toString s.absCount ∉ s.domain.map (·.name)) :
+    linExp (.abs (.var "x") : Exp (Ext K)) .lower s = .ok (Ctx.fromVar (toString "$abs_" ++ toString s.absCount) Arith.one,
+      absState1 s (toString "$abs_" ++ toString s.absCount) ⟨.fin (-1), .fin 2⟩ exAbsInner) := by
+  rw [linExp]
+  simp only [bind_ok, get_ok]
+  refine ⟨s, s, rfl, ?_⟩
+  have hbo : boundsOf s.bounds (.var "x" : Exp (Ext K)) = ⟨.fin (-1), .fin 2⟩ := by simp [boundsOf, hb]
+  rw [hbo]
+  have h1 : ¬ (Arith.ge (Ext.fin (-1) : Ext K) Arith.zero = true) := by simp [Arith.ge, Arith.le, ext_le_fin]
+  have h2 : ¬ (Arith.le (Ext.fin 2 : Ext K) Arith.zero = true) := by simp [Arith.le, ext_le_fin]
+  simp only [if_neg h1, if_neg h2]
+  simp only [ite_ok, bind_ok, pure_ok, fail_ok, get_ok, set_ok, declareVariable_ok, addConstraint_ok]
+  right
+  refine ⟨by simp, Ctx.fromVar "x" Arith.one, s, by simp [linExp, pure_ok], ?_⟩
+  refine ⟨s, s, rfl, ⟨⟩, _, rfl, ⟨⟩, _, ⟨hf, rfl⟩, ⟨⟩, _, rfl, ⟨⟩, _, rfl, Or.inr ⟨by simp, ?_⟩⟩
+  simp [absState1, bumpAbs, pushC, exAbsInner, fromVar_eq, ctxToExp]
+
+theorem exAbs_emit_c (s : St (Ext K)) (hb : lookupB s.bounds "x" = some ⟨.fin (-1), .fin 2⟩)
+    (hf : toString "$abs_" ++ toString s.absCount ∉ s.domain.map (·.name)) :
+    ∃ row, emitConstraint (.abs (.var "x") : Exp (Ext K)) .le (.var "y") "c" s = .ok ((),
+      addRow (absState1 s (toString "$abs_" ++ toString s.absCount) ⟨.fin (-1), .fin 2⟩ exAbsInner) row) := by
+  let cx : Ctx (Ext K) := (Ctx.fromVar (toString "$abs_" ++ toString s.absCount) Arith.one).mergeSub
+    (Ctx.fromVar "y" Arith.one)
+  refine ⟨{ name := "c", lhs := cx.vars, rhs := Arith.neg cx.rhs, cmp := .le }, ?_⟩
+  rw [emitConstraint_ok]
+  refine ⟨_, cx, _, exAbs_norm_sub1, ?_, rfl⟩
+  rw [linExp]
+  simp only [bind_ok, pure_ok]
+  exact ⟨_, _, exAbs_lin_abs s hb hf, Ctx.fromVar "y" Arith.one, _, by simp [linExp, pure_ok], rfl⟩
+
+theorem exAbs_proc_c (s : St (Ext K)) (hb : lookupB s.bounds "x" = some ⟨.fin (-1), .fin 2⟩)
+    (hf : toString "$abs_" ++ toString s.absCount ∉ s.domain.map (·.name)) :
+    ∃ row, processConstraint ({ name := "c", lhs := .abs (.var "x"), cmp := .le, rhs := .var "y", isAssert := false } :
+      Constraint (Ext K)) s = .ok ((),
+      addRow (absState1 s (toString "$abs_" ++ toString s.absCount) ⟨.fin (-1), .fin 2⟩ exAbsInner) row) := by
+  obtain ⟨row, hrow⟩ := exAbs_emit_c s hb hf
+  refine ⟨row, ?_⟩
+  unfold processConstraint dispatch
+  simp only [bind_ok, get_ok, simplifyFlat_ok]
+  refine ⟨_, _, ⟨_, exAbs_norm_abs, rfl⟩, _, _, ⟨_, exAbs_norm_var "y", rfl⟩, ?_⟩
+  simp only [Bool.false_eq_true, if_false, bind_ok, get_ok]
+  refine ⟨s, s, rfl, ?_⟩
+  have : tryNormalize s.domain (.abs (.var "x") : Exp (Ext K)) .le (.var "y") = none := by
+    simp [tryNormalize]
+  simp only [this]
+  exact hrow
+
+/-- an auxiliary row `v ≥ rhs` whose right side normalises to `rhs'`, an affine expression in `x`. -/
+theorem exAbs_proc_aux (s : St (Ext K)) (v : String) (rhs rhs' : Exp (Ext K))
+    (hn : normalizeExp rhs = some rhs')
+    (hn2 : normalizeExp (.bin .sub (.var v) rhs' : Exp (Ext K)) = some (.bin .sub (.var v) rhs'))
+    (hshape : rhs' = .var "x" ∨ rhs' = .un .neg (.var "x")) :
+    ∃ row, processConstraint ({ name := "", lhs := .var v, cmp := .ge, rhs := rhs, isAssert := false } :
+      Constraint (Ext K)) s = .ok ((), addRow s row) := by
+  have hlin : ∃ c, linExp (.bin .sub (.var v) rhs' : Exp (Ext K)) .higher s = .ok (c, s) := by
+    rcases hshape with rfl | rfl
+    · exact ⟨(Ctx.fromVar v Arith.one).mergeSub (Ctx.fromVar "x" Arith.one), by simp [linExp, bind_ok, pure_ok]⟩
+    · exact ⟨(Ctx.fromVar v Arith.one).mergeSub ((Ctx.fromVar "x" Arith.one).mulBy (Arith.ofInt (-1))),
+        by simp [linExp, bind_ok, pure_ok]⟩
+  obtain ⟨c, hc⟩ := hlin
+  refine ⟨{ name := "", lhs := c.vars, rhs := Arith.neg c.rhs, cmp := .ge }, ?_⟩
+  unfold processConstraint dispatch
+  simp only [bind_ok, get_ok, simplifyFlat_ok]
+  refine ⟨_, _, ⟨_, exAbs_norm_var v, rfl⟩, _, _, ⟨_, hn, rfl⟩, ?_⟩
+  simp only [Bool.false_eq_true, if_false, bind_ok, get_ok]
+  refine ⟨s, s, rfl, ?_⟩
+  have : tryNormalize s.domain (.var v : Exp (Ext K)) .ge rhs' = none := by
+    rcases hshape with rfl | rfl <;> simp [tryNormalize]
+  simp only [this]
+  rw [emitConstraint_ok]
+  exact ⟨_, c, s, hn2, hc, rfl⟩
+
+theorem drain_nil (n : Nat) (s : St (Ext K)) (hq : s.queue = []) : drain (n + 1) s = .ok ((), s) := by
+  rw [drain_succ]
+  simp only [bind_ok, get_ok]
+  exact ⟨s, s, rfl, by simp [hq, pure_ok]⟩
+
+theorem drain_cons (n : Nat) (s s1 : St (Ext K)) (c : Constraint (Ext K)) (rest : List (Constraint (Ext K)))
+    (hq : s.queue = c :: rest) (hp : processConstraint c { s with queue := rest } = .ok ((), s1)) (r : Unit × St (Ext K))
+    (hd : drain n s1 = .ok r) : drain (n + 1) s = .ok r := by
+  rw [drain_succ]
+  simp only [bind_ok, get_ok]
+  refine ⟨s, s, rfl, ?_⟩
+  simp only [hq, bind_ok, set_ok]
+  exact ⟨_, _, rfl, _, _, hp, hd⟩
+
+theorem exAbs_ok : ∃ lm, linearizeWith (exAbs : Model (Ext K)) exAbsBounds (exAbs : Model (Ext K)).domain = .ok lm := by
+  let s0 : St (Ext K) := { queue := (exAbs : Model (Ext K)).constraints, domain := (exAbs : Model (Ext K)).domain, bounds := exAbsBounds }
+  have hb0 : lookupB s0.bounds "x" = some ⟨.fin (-1), .fin 2⟩ := by simp [s0, exAbsBounds, lookupB]
+  have hf0 : toString "$abs_" ++ toString ({ s0 with queue := [] } : St (Ext K)).absCount ∉
+      ({ s0 with queue := [] } : St (Ext K)).domain.map (·.name) := by
+    simp [s0, exAbs]; decide
+  obtain ⟨row, hproc⟩ := exAbs_proc_c { s0 with queue := [] } hb0 hf0
+  set v := toString "$abs_" ++ toString ({ s0 with queue := [] } : St (Ext K)).absCount with hv
+  set s1 := addRow (absState1 { s0 with queue := [] } v ⟨.fin (-1), .fin 2⟩ exAbsInner) row with hs1
+  have hq1 : s1.queue = [mkC (.var v) .ge (.un .neg exAbsInner), mkC (.var v) .ge exAbsInner] := rfl
+  obtain ⟨row2, hp2⟩ := exAbs_proc_aux { s1 with queue := [mkC (.var v) .ge exAbsInner] } v (.un .neg exAbsInner) _
+    exAbs_norm_neg_inner (exAbs_norm_sub2 v) (Or.inr rfl)
+  obtain ⟨row3, hp3⟩ := exAbs_proc_aux
+    { (addRow { s1 with queue := [mkC (.var v) .ge exAbsInner] } row2) with queue := [] } v exAbsInner _
+    exAbs_norm_inner (exAbs_norm_sub3 v) (Or.inl rfl)
+  have hdrain : ∃ s3, drain drainFuel s0 = .ok ((), s3) := by
+    have h1 : drainFuel = 999995 + 1 + 1 + 1 + 1 + 1 := rfl
+    rw [h1]
+    have key : ∀ r, drain (999995 + 1 + 1) (addRow { (addRow { s1 with queue := [mkC (.var v) .ge exAbsInner] } row2) with queue := [] } row3) = .ok r →
+        drain (999995 + 1 + 1 + 1 + 1 + 1) s0 = .ok r := by
+      intro r hr
+      apply drain_cons _ s0 s1 _ [] rfl hproc
+      apply drain_cons _ s1 _ _ _ hq1 hp2
+      apply drain_cons _ _ _ _ [] rfl hp3
+      exact hr
+    exact ⟨_, key _ (drain_nil (999995 + 1) _ rfl)⟩
+  obtain ⟨s3, hs3⟩ := hdrain
+  exact ⟨_, (linearizeWith_ok_iff _ _ _ _).mpr ⟨.var "y", s0, Ctx.fromVar "y" Arith.one, s0, s3,
+    by simp [simplifyFlat_ok, exAbs_norm_var, exAbs, s0], by simp [linExp, pure_ok], hs3, rfl⟩⟩
+
+theorem exAbs_hyps : FragModel true (exAbs : Model (Ext K)) (exAbs : Model (Ext K)).domain ∧
+    DomRel (exAbs : Model (Ext K)) (exAbs : Model (Ext K)).domain ∧
+    BoxEnforced (exAbsBounds : BoundsMap (Ext K)) (exAbs : Model (Ext K)).domain := by
+  have sx : inScope (exAbs : Model (Ext K)).domain "x" :=
+    ⟨{ name := "x", ty := .real (.fin (-1)) (.fin 2), usage := 1 }, by simp [exAbs], rfl, by simp⟩
+  have sy : inScope (exAbs : Model (Ext K)).domain "y" :=
+    ⟨{ name := "y", ty := .real .ninf .pinf, usage := 1 }, by simp [exAbs], rfl, by simp⟩
+  refine ⟨⟨FG_var.mpr sy, fun ρ => ⟨ρ "y", by simp [exAbs, eval]⟩, ?_⟩,
+    ⟨by simp [exAbs], fun _ h => h, fun ρ h => ((srcFeasible_iff _ ρ).mp h).2,
+      fun dv hdv hu => ⟨dv, hdv, rfl, hu⟩⟩, ?_⟩
+  · intro c hc
+    simp only [exAbs, List.mem_singleton] at hc
+    subst hc
+    refine ⟨rfl, FG_abs.mpr (FG_var.mpr sx), FG_var.mpr sy, fun ρ => ⟨|ρ "x"|, ρ "y", ?_, by simp [eval]⟩⟩
+    rw [eval]; simp [eval, kabs_eq]
+  · intro ρ hd n bd hl
+    simp only [exAbsBounds, lookupB_cons] at hl
+    by_cases hn : "x" = n
+    · subst hn
+      simp only [if_true, Option.some.injEq] at hl
+      subst hl
+      have := hd { name := "x", ty := .real (.fin (-1)) (.fin 2), usage := 1 } (by simp [exAbs]) (by simp)
+      exact (inDomain_real_iff _ _ _).mp this
+    · simp [hn, lookupB] at hl
+
 end Rooc.LinP
